@@ -442,7 +442,100 @@ fn yq(s: &str) -> String {
     serde_json::to_string(s).unwrap()
 }
 
+/// Handlers with a life of their own (run before every case on the case's thread; direct expectation):
+/// (a) the error handler of logger A reports the error by logging into logger B, whose appender fails too: B's
+///     handler gets that error - every appender error reaches the handler of the logger it happened in, once;
+/// (b) a handler that panicked once (the panic caught by the caller) is called for the next error like before.
+fn handler_history() -> Option<String> {
+    use std::sync::atomic::{AtomicUsize, Ordering};
+    use std::sync::{Arc, OnceLock};
+    #[derive(Debug)]
+    struct Fail;
+    impl log4rs::append::Append for Fail {
+        fn append(&self, _r: &log::Record) -> anyhow::Result<()> {
+            Err(anyhow::anyhow!("appender fails"))
+        }
+        fn flush(&self) {}
+    }
+    static HA: AtomicUsize = AtomicUsize::new(0);
+    static HB: AtomicUsize = AtomicUsize::new(0);
+    static HP: AtomicUsize = AtomicUsize::new(0);
+    static B: OnceLock<Arc<log4rs::Logger>> = OnceLock::new();
+    static A: OnceLock<Arc<log4rs::Logger>> = OnceLock::new();
+    static P: OnceLock<Arc<log4rs::Logger>> = OnceLock::new();
+    fn failing_config() -> Config {
+        Config::builder()
+            .appender(Appender::builder().build("f", Box::new(Fail)))
+            .build(Root::builder().appender("f").build(log::LevelFilter::Trace))
+            .expect("config")
+    }
+    let b = B.get_or_init(|| {
+        Arc::new(log4rs::Logger::new_with_err_handler(
+            failing_config(),
+            Box::new(|_e: &anyhow::Error| {
+                HB.fetch_add(1, Ordering::SeqCst);
+            }),
+        ))
+    });
+    let _ = b;
+    let a = A.get_or_init(|| {
+        Arc::new(log4rs::Logger::new_with_err_handler(
+            failing_config(),
+            Box::new(|e: &anyhow::Error| {
+                HA.fetch_add(1, Ordering::SeqCst);
+                if let Some(b) = B.get() {
+                    b.log(&log::Record::builder().level(log::Level::Error).target("audit").args(format_args!("{}", e)).build());
+                }
+            }),
+        ))
+    });
+    let p = P.get_or_init(|| {
+        Arc::new(log4rs::Logger::new_with_err_handler(
+            failing_config(),
+            Box::new(|_e: &anyhow::Error| {
+                if HP.fetch_add(1, Ordering::SeqCst) == 0 {
+                    panic!("the handler's first call panics");
+                }
+            }),
+        ))
+    });
+    let rec = |t: &str| {
+        let lg = if t == "a" { a } else { p };
+        lg.log(&log::Record::builder().level(log::Level::Info).target(t).args(format_args!("x")).build());
+    };
+    let (a0, b0) = (HA.load(Ordering::SeqCst), HB.load(Ordering::SeqCst));
+    rec("a");
+    let (da, db) = (HA.load(Ordering::SeqCst) - a0, HB.load(Ordering::SeqCst) - b0);
+    if (da, db) != (1, 1) {
+        return Some(format!(
+            "logger A's handler logs the error into logger B whose appender fails as well: handler calls (A, B) = ({}, {}), one each is due",
+            da, db
+        ));
+    }
+    let p0 = HP.load(Ordering::SeqCst);
+    if p0 == 0 {
+        let r = std::panic::catch_unwind(std::panic::AssertUnwindSafe(|| rec("p")));
+        if r.is_ok() {
+            return Some("a panicking error handler did not unwind out of Logger::log".to_string());
+        }
+    }
+    let p1 = HP.load(Ordering::SeqCst);
+    rec("p");
+    rec("p");
+    let dp = HP.load(Ordering::SeqCst) - p1;
+    if dp != 2 {
+        return Some(format!(
+            "after an error handler panicked once (caught by the caller), 2 further appender errors on the thread led to {} handler calls",
+            dp
+        ));
+    }
+    None
+}
+
 fn run(case: &Val) -> Val {
+    if let Some(bad) = handler_history() {
+        return Val::L(vec![Val::text(&bad)]);
+    }
     next_name_style();
     let c = case.l();
     if c.len() == 5 {
